@@ -1,1 +1,439 @@
+/-
+  Property C14 — typed-data hashing is total on arbitrary documents and never misreads a number.
+  Model: FFS.Model.Eip712 (pkg/eip712/typed_data_v4.go) over the ABI type parser and elementary encoders.
+  * `encodeTypedDataV4_total` : for every document — any type set (cyclic, with null members, with unparseable
+        member types), any domain and message values — the model never panics once the fuel covers the size of the
+        values (`docNeed`, which the driver supplies): out-of-fuel is the model's only other panic, so this is also
+        the proof that the recursion over the document terminates.
+  * `getInteger_same`         : a JSON number and a string with the same text are read identically (the encoder sees
+        the literal, `useNumber`), and whatever integer is accepted is the one the text denotes (C19.bigint_sound).
+  JSON decoding into `TypedData` is encoding/json's (shared glue in the harness).
+-/
 import FFS.Model.Eip712
+import FFS.Props.C13
+import FFS.Props.C19
+namespace FFS.Props.C14
+open FFS FFS.Model.Abi FFS.Model.Eip712 FFS.Gen.Eip712Facts
+
+theorem facts : nilMemberGuard = true ∧ useNumber = true := by decide
+
+/-! ### how much fuel a value needs -/
+
+theorem need_ge (M : Nat) : ∀ v, 3 ≤ need M v
+  | .obj _ vals => by rw [need]; omega
+  | .arr xs => by
+    rw [need]
+    have : 3 ≤ needMax M xs := by
+      cases xs with
+      | nil => simp [needMax]
+      | cons x xs => rw [needMax]; have := need_ge M x; omega
+    omega
+  | .null => by simp [need]
+  | .bool _ => by simp [need]
+  | .num _ _ _ => by simp [need]
+  | .str _ _ _ => by simp [need]
+  | .int _ => by simp [need]
+  | .float _ _ => by simp [need]
+  | .goBytes _ => by simp [need]
+
+theorem needMax_ge (M : Nat) : ∀ xs, 3 ≤ needMax M xs
+  | [] => by simp [needMax]
+  | x :: xs => by rw [needMax]; have := need_ge M x; omega
+
+theorem need_le_needMax (M : Nat) : ∀ (xs : List Ext) (x : Ext), x ∈ xs → need M x ≤ needMax M xs
+  | [], x, h => by cases h
+  | y :: ys, x, h => by
+    rw [needMax]
+    rcases List.mem_cons.mp h with rfl | h
+    · omega
+    · have := need_le_needMax M ys x h; omega
+
+theorem lookupKey_mem (keys : List String) (vals : List Ext) (k : String) (x : Ext)
+    (h : lookupKey keys vals k = some x) : x ∈ vals := by
+  unfold lookupKey at h
+  simp only [Option.map_eq_some_iff] at h
+  obtain ⟨p, hp, rfl⟩ := h
+  have := List.mem_of_find?_eq_some hp
+  have := List.mem_reverse.mp this
+  exact (List.of_mem_zip this).2
+
+theorem need_lookup (M : Nat) (keys : List String) (vals : List Ext) (k : String) :
+    need M ((lookupKey keys vals k).getD .null) ≤ needMax M vals := by
+  cases h : lookupKey keys vals k with
+  | none => simp [need]; exact needMax_ge M vals
+  | some x => simpa using need_le_needMax M vals x (lookupKey_mem keys vals k x h)
+
+/-! ### the leaves never panic -/
+
+theorem table_widths : Gen.AbiTypeTable.table.all (fun i => decide (i.defaultM ≤ 256) && decide (i.mMax ≤ 256)) = true := by decide
+
+theorem elementaryOf_width (info : ElemInfo) (hi : info ∈ Gen.AbiTypeTable.table) (suffix : List Char) (i' : ElemInfo) (sfx : String) (m n : Nat)
+    (h : elementaryOf info suffix = .ok (.elem i' sfx m n)) : m ≤ 256 := by
+  have hw := List.all_eq_true.mp table_widths info hi
+  simp only [Bool.and_eq_true, decide_eq_true_eq] at hw
+  unfold elementaryOf at h
+  split at h
+  · split at h
+    · injection h with h; injection h with _ _ h3 _; omega
+    · cases h
+  · split at h
+    · cases h
+    · split at h
+      · rename_i m' hm
+        injection h with h; injection h with _ _ h3 _
+        have := (C13.parseM_sound hm).2.2.1
+        omega
+      · cases h
+  · split at h
+    · injection h with h; injection h with _ _ h3 _; omega
+    · split at h
+      · rename_i m' hm
+        injection h with h; injection h with _ _ h3 _
+        have := (C13.parseM_sound hm).2.2.1
+        omega
+      · cases h
+  · split at h
+    · cases h
+    · split at h
+      · rename_i m' n' hmn
+        injection h with h; injection h with _ _ h3 _
+        unfold parseMxN at hmn
+        simp only [] at hmn
+        split at hmn
+        · cases hmn
+        · split at hmn
+          · cases hmn
+          · rename_i m'' hm
+            split at hmn
+            · cases hmn
+            · injection hmn with hmn; injection hmn with h1 _
+              have := (C13.parseM_sound hm).2.2.1
+              omega
+      · cases h
+
+theorem parseArrays_not_elem : ∀ (fuel : Nat) (t : Ty) (s : List Char) (i : ElemInfo) (sfx : String) (m n : Nat),
+    parseArrays fuel t s ≠ .ok (.elem i sfx m n) := by
+  intro fuel
+  induction fuel with
+  | zero => intro t s i sfx m n h; simp [parseArrays] at h
+  | succ fuel ih =>
+    intro t s i sfx m n h
+    unfold parseArrays at h
+    split at h
+    · split at h
+      · cases h
+      · split at h
+        · rename_i a ha
+          split at h
+          · injection h with h
+            subst h
+            unfold arrayComponent at ha
+            split at ha
+            · cases ha
+            · split at ha <;> cases ha
+          · exact ih _ _ _ _ _ _ h
+        · cases h
+        · cases h
+    · cases h
+
+/-- an elementary component produced by the type parser has a width of at most 256 bits -/
+theorem parseParam_elem_width (name type : String) (ix : Bool) (it : String) (comps : List Param)
+    (i : ElemInfo) (sfx : String) (m n : Nat) (h : parseParam (.mk name type ix it comps) = .ok (.elem i sfx m n)) : m ≤ 256 := by
+  unfold parseParam at h
+  simp only [] at h
+  split at h
+  · rename_i tc hbase
+    split at h
+    · injection h with h
+      subst h
+      split at hbase
+      · split at hbase
+        · cases hbase
+        · split at hbase <;> cases hbase
+      · unfold parseElementary at hbase
+        split at hbase
+        · cases hbase
+        · rename_i info hfind
+          exact elementaryOf_width info (List.mem_of_find?_eq_some hfind) _ _ _ _ _ hbase
+    · exact absurd h (parseArrays_not_elem _ _ _ _ _ _ _)
+  · cases h
+  · cases h
+
+theorem getInteger_ne_panic (v : Ext) : getInteger v ≠ .panic := by
+  cases v <;> simp [getInteger, Model.EthTypes.bigIntegerFromString]
+  all_goals (repeat' split) <;> simp
+
+theorem map_ne_panic {α β : Type} (f : α → β) (x : Outcome α) (h : x ≠ .panic) : x.map f ≠ .panic := by
+  cases x <;> simp_all [Outcome.map]
+
+theorem getBool_ne_panic (v : Ext) : getBool v ≠ .panic := by cases v <;> simp [getBool]
+theorem getString_ne_panic (v : Ext) : getString v ≠ .panic := by cases v <;> simp [getString]
+theorem getBytes_ne_panic (v : Ext) : getBytes v ≠ .panic := by
+  cases v <;> simp [getBytes] <;> split <;> simp
+
+theorem readElementary_ne_panic (info : ElemInfo) (v : Ext) : readElementary info v ≠ .panic := by
+  unfold readElementary
+  split
+  · exact map_ne_panic _ _ (getInteger_ne_panic v)
+  · split
+    · exact map_ne_panic _ _ (getBytes_ne_panic v)
+    · split
+      · exact map_ne_panic _ _ (getBool_ne_panic v)
+      · split
+        · exact map_ne_panic _ _ (getBytes_ne_panic v)
+        · split
+          · exact map_ne_panic _ _ (getString_ne_panic v)
+          · simp
+
+theorem bitLen_ge (n m : Nat) (h : bitLen n ≤ m) : n < 2 ^ m := by
+  unfold bitLen at h
+  split at h
+  · rename_i h0; subst h0; exact Nat.pow_pos (by decide)
+  · rename_i hn
+    exact (Nat.log2_lt hn).mp (by omega)
+
+theorem encodeElem_ne_panic (info : ElemInfo) (m : Nat) (cv : CV) (hm : m ≤ 256) : encodeElem info m cv ≠ .panic := by
+  unfold encodeElem
+  split
+  · split <;> simp
+  · rename_i z _
+    split
+    · simp
+    · split
+      · simp
+      · rename_i hbl
+        have hlt : z.toNat < 2 ^ m := bitLen_ge _ _ (by omega)
+        have hfill : fillBytes? z.toNat 32 = .ok (toBE 32 z.toNat) := by
+          have h1 : 2 ^ m ≤ 2 ^ 256 := Nat.pow_le_pow_right (by decide) hm
+          have h2 : (256 : Nat) ^ 32 = 2 ^ 256 := by rw [show (256 : Nat) = 2 ^ 8 from rfl, ← Nat.pow_mul]
+          have : z.toNat < 256 ^ 32 := by omega
+          unfold fillBytes?
+          rw [if_pos this]
+        rw [hfill]
+        simp [Outcome.bind]
+  · split
+    · simp
+    · split <;> simp
+  · simp
+  · simp
+
+theorem abiEncode_ne_panic (info : ElemInfo) (m : Nat) (v : Ext) (hm : m ≤ 256) : abiEncode info m v ≠ .panic := by
+  unfold abiEncode
+  have h1 := readElementary_ne_panic info v
+  split
+  · rename_i cv _
+    have h2 := encodeElem_ne_panic info m cv hm
+    split
+    · simp
+    · simp
+    · rename_i h; exact absurd h h2
+  · simp
+  · rename_i h; exact absurd h h1
+
+theorem encodeType_ne_panic (typeName : String) (allTypes : TypeSet) : encodeType typeName allTypes ≠ .panic := by
+  unfold encodeType
+  split
+  · simp only [facts.1, if_true]
+    split <;> simp
+  · simp
+
+theorem find_members_le (ts : TypeSet) (n : String) (p : String × TypeDef) (h : ts.find? (·.1 == n) = some p) :
+    (p.2.getD []).length ≤ maxMembers ts := by
+  induction ts with
+  | nil => simp at h
+  | cons q r ih =>
+    obtain ⟨qn, qt⟩ := q
+    rw [List.find?_cons] at h
+    rw [maxMembers]
+    split at h
+    · injection h with h; subst h; simp; omega
+    · have := ih h; omega
+
+theorem encodeType_members (typeName : String) (allTypes : TypeSet) (members : List Member) (enc : String)
+    (h : encodeType typeName allTypes = .ok (members, enc)) : members.length ≤ maxMembers allTypes := by
+  unfold encodeType at h
+  split at h
+  · rename_i ms hl
+    simp only [facts.1, if_true] at h
+    split at h
+    · cases h
+    · injection h with h; injection h with h1 _
+      subst h1
+      unfold tsLookup at hl
+      simp only [Option.map_eq_some_iff] at hl
+      obtain ⟨p, hp, hp2⟩ := hl
+      have := find_members_le allTypes typeName p hp
+      rw [hp2] at this
+      simp only [Option.getD_some] at this
+      exact Nat.le_trans (List.length_filterMap_le _ _) this
+  · cases h
+
+/-! ### the recursion over the document -/
+
+/-- the six mutually recursive functions do not panic at fuel `f` on values the fuel covers -/
+structure Safe (types : TypeSet) (f : Nat) : Prop where
+  elem : ∀ t v, need (maxMembers types) v ≤ f → encodeElement f t v types ≠ .panic
+  strct : ∀ t v, need (maxMembers types) v ≤ f + 1 → hashStruct f t v types ≠ .panic
+  data : ∀ t v, need (maxMembers types) v ≤ f + 2 → Model.Eip712.encodeData f t v types ≠ .panic
+  members : ∀ ms keys vals, ms.length + needMax (maxMembers types) vals ≤ f → encodeMembers f ms keys vals types ≠ .panic
+  array : ∀ t v, need (maxMembers types) v ≤ f + 1 → hashArray f t types v ≠ .panic
+  elems : ∀ t xs, xs.length + needMax (maxMembers types) xs ≤ f → hashElems f t xs types ≠ .panic
+
+theorem safe_zero (types : TypeSet) : Safe types 0 := by
+  refine ⟨?_, ?_, ?_, ?_, ?_, ?_⟩
+  · intro t v h; have := need_ge (maxMembers types) v; omega
+  · intro t v h; have := need_ge (maxMembers types) v; omega
+  · intro t v h; have := need_ge (maxMembers types) v; omega
+  · intro ms keys vals h; have := needMax_ge (maxMembers types) vals; omega
+  · intro t v h; have := need_ge (maxMembers types) v; omega
+  · intro t xs h; have := needMax_ge (maxMembers types) xs; omega
+
+theorem safe_succ (types : TypeSet) (f : Nat) (ih : Safe types f) : Safe types (f + 1) := by
+  refine ⟨?_, ?_, ?_, ?_, ?_, ?_⟩
+  · -- encodeElement
+    intro t v h
+    rw [encodeElement]
+    split
+    · exact ih.array t v (by omega)
+    · split
+      · exact ih.strct t v (by omega)
+      · split
+        · rename_i info suffix m n hp
+          have hm : m ≤ 256 := parseParam_elem_width _ _ _ _ _ _ _ _ _ hp
+          split
+          · exact abiEncode_ne_panic info m v hm
+          · split
+            · split
+              · exact abiEncode_ne_panic info m v hm
+              · have := getBytes_ne_panic v
+                split
+                · simp
+                · simp
+                · rename_i hh; exact absurd hh this
+            · split
+              · have := getString_ne_panic v
+                split
+                · simp
+                · simp
+                · rename_i hh; exact absurd hh this
+              · simp
+        · simp
+        · simp
+        · rename_i hh
+          exact absurd hh (C13.parse_total _)
+  · -- hashStruct
+    intro t v h
+    rw [hashStruct]
+    have := ih.data t v (by omega)
+    split
+    · simp
+    · simp
+    · simp
+    · rename_i hh; exact absurd hh this
+  · -- encodeData
+    intro t v h
+    rw [Model.Eip712.encodeData]
+    have ht := encodeType_ne_panic t types
+    split
+    · rename_i members enc hte
+      have hlen := encodeType_members t types members enc hte
+      split
+      · simp
+      · rename_i keys vals
+        rw [need] at h
+        have := ih.members members keys vals (by omega)
+        split
+        · simp
+        · simp
+        · rename_i hh; exact absurd hh this
+      · simp
+    · simp
+    · rename_i hh; exact absurd hh ht
+  · -- encodeMembers
+    intro ms keys vals h
+    cases ms with
+    | nil => simp [encodeMembers]
+    | cons m ms =>
+      rw [encodeMembers]
+      have hx := need_lookup (maxMembers types) keys vals m.name
+      have h1 := ih.elem m.type ((lookupKey keys vals m.name).getD .null) (by simp at h; omega)
+      have h2 := ih.members ms keys vals (by simp at h; omega)
+      split
+      · split
+        · simp
+        · simp
+        · rename_i hh; exact absurd hh h2
+      · simp
+      · rename_i hh; exact absurd hh h1
+  · -- hashArray
+    intro t v h
+    rw [hashArray]
+    simp only []
+    split
+    · simp
+    · split
+      · simp
+      · split
+        · rename_i openPos _ _ _ va
+          rw [need] at h
+          have := ih.elems (String.ofList (t.toList.take openPos)) va (by omega)
+          have hm : ∀ (o : Outcome Bytes), o ≠ .panic →
+              (match o with | .ok b => Outcome.ok (keccak b) | .err => .err | .panic => .panic) ≠ .panic := by
+            intro o ho; cases o <;> simp_all
+          repeat' split
+          all_goals first
+            | exact hm _ this
+            | (rename_i hh; exact absurd hh this)
+            | simp
+        · simp
+  · -- hashElems
+    intro t xs h
+    cases xs with
+    | nil => simp [hashElems]
+    | cons x xs =>
+      rw [hashElems]
+      have hx : need (maxMembers types) x ≤ needMax (maxMembers types) (x :: xs) := need_le_needMax _ _ _ (by simp)
+      have hxs : needMax (maxMembers types) xs ≤ needMax (maxMembers types) (x :: xs) := by
+        rw [needMax.eq_2]; omega
+      have h1 := ih.elem t x (by simp at h; omega)
+      have h2 := ih.elems t xs (by simp at h; omega)
+      split
+      · split
+        · simp
+        · simp
+        · rename_i hh; exact absurd hh h2
+      · simp
+      · rename_i hh; exact absurd hh h1
+
+theorem safe_all (types : TypeSet) : ∀ f, Safe types f
+  | 0 => safe_zero types
+  | f + 1 => safe_succ types f (safe_all types f)
+
+/-- **Totality.** Hashing any document never panics (and the recursion over it terminates within `docNeed`). -/
+theorem encodeTypedDataV4_total (p : TypedData) (fuel : Nat) (hf : docNeed p ≤ fuel) :
+    encodeTypedDataV4 fuel p ≠ .panic := by
+  unfold encodeTypedDataV4
+  simp only []
+  have hs := safe_all (effectiveTypes p) fuel
+  have h1 := hs.strct EIP712Domain (p.domain.getD (.obj [] [])) (by unfold docNeed at hf; omega)
+  have h2 := hs.strct p.primaryType (p.message.getD .null) (by unfold docNeed at hf; omega)
+  unfold effectiveTypes at h1 h2
+  split
+  · simp
+  · split
+    · split
+      · split
+        · simp
+        · simp
+        · rename_i hh; exact absurd hh h2
+      · simp
+    · simp
+    · rename_i hh; exact absurd hh h1
+
+/-- **A JSON number and a string with the same text are read as the same integer** (the literal reaches the reader:
+    `useNumber`), so `1000`, `"1000"` and `"0x3e8"` all go through `bigIntegerFromString`, whose accepted results are
+    exactly what the text denotes (C19.bigint_sound). -/
+theorem getInteger_same (lit : String) (fl rat : Model.EthTypes.ExtNum) :
+    getInteger (.num lit fl rat) = getInteger (.str lit fl rat) := rfl
+
+end FFS.Props.C14
